@@ -9,7 +9,7 @@ for id in $IDS; do
   [ -d /tmp/bn/$id ] || { mkdir -p /tmp/bn/$id && (cd /repo && git archive HEAD | tar -x -C /tmp/bn/$id) && (cd /tmp/bn/$id && patch -p1 -s < /verif/benign/$id/patch.diff); }
   mkdir -p /tmp/bnrun/$id; cp KNOWN_FINDINGS.jsonl /tmp/bnrun/$id/
   for P in $(seq -f "C%02g" 1 20); do
-    ( bin/obfsvet -prop $P -tier quick -repo /tmp/bn/$id -verif /tmp/bnrun/$id > /tmp/bnrun/$id/$P.log 2>&1; echo $? > /tmp/bnrun/$id/$P.rc ) &
+    ( ${OBFSVET:-bin/obfsvet} -prop $P -tier quick -repo /tmp/bn/$id -verif /tmp/bnrun/$id > /tmp/bnrun/$id/$P.log 2>&1; echo $? > /tmp/bnrun/$id/$P.rc ) &
   done
   wait
   fired=""
